@@ -179,6 +179,9 @@ func execC09(t *testing.T, c any, o *Outcome) {
 		if got.Err == nil {
 			o.Fail("consensus:bad-threshold-accepted", "threshold %v outside [0.5,1] is accepted\n%s", cutoff, ctx)
 		}
+		if !pc.NaNCutoff && len(o.Viols) == 0 {
+			checkConsensusCLI(t, o, pc, cutoff)
+		}
 		return
 	}
 	if fkind != "" {
@@ -203,6 +206,9 @@ func execC09(t *testing.T, c any, o *Outcome) {
 	}
 	tab := consensusTable(models)
 	checkConsensus(o, got.RefOut, tab, len(models), cutoff, ctx)
+	if pc.Chunk == 1 && len(o.Viols) == 0 {
+		checkConsensusCLI(t, o, pc, cutoff)
+	}
 	// same collection in another order / rooting / child order
 	if len(pc.Recs2) == len(models) {
 		run2 := run
